@@ -66,8 +66,17 @@ def regen_coqproject():
 
 
 def coq_build(targets, timeout=2400):
-    regen_coqproject()
-    return sh("make -j16 " + " ".join(targets), cwd=COQ, timeout=timeout)
+    os.makedirs(CACHE, exist_ok=True)
+    lock = os.path.join(CACHE, "coq.lock")
+    fd = os.open(lock, os.O_CREAT | os.O_RDWR)
+    import fcntl
+    fcntl.flock(fd, fcntl.LOCK_EX)
+    try:
+        regen_coqproject()
+        return sh("make -j16 " + " ".join(targets), cwd=COQ, timeout=timeout)
+    finally:
+        fcntl.flock(fd, fcntl.LOCK_UN)
+        os.close(fd)
 
 
 def audit_coq(dirs):
@@ -196,7 +205,46 @@ def shard_case_text(path, idx):
         return ""
 
 
+def repo_lock(exclusive):
+    import fcntl
+    os.makedirs(CACHE, exist_ok=True)
+    fd = os.open(os.path.join(CACHE, "repo.lock"), os.O_CREAT | os.O_RDWR)
+    fcntl.flock(fd, fcntl.LOCK_EX if exclusive else fcntl.LOCK_SH)
+    return fd
+
+
 def check(pid, tier="quick", seed=None, extra_env=None):
+    if os.environ.get("FV_HAVE_REPO_LOCK"):
+        return check_locked(pid, tier, seed, extra_env)
+    fd = repo_lock(False)
+    try:
+        return check_locked(pid, tier, seed, extra_env)
+    finally:
+        os.close(fd)
+
+
+def mutate(patch, pids, tier="quick"):
+    """Development aid: apply a patch to /repo under an exclusive lock, run the checks, always revert."""
+    fd = repo_lock(True)
+    os.environ["FV_HAVE_REPO_LOCK"] = "1"
+    rcs = {}
+    try:
+        rc, out, _ = sh(["git", "-C", "/repo", "apply", os.path.abspath(patch)])
+        if rc != 0:
+            print("patch does not apply:\n" + out)
+            return 2
+        try:
+            for pid in pids:
+                rcs[pid] = check_locked(pid, tier, None, None)
+        finally:
+            sh("git -C /repo checkout -- .")
+    finally:
+        os.close(fd)
+    print("mutate %s: %s" % (os.path.basename(patch), {k: ("DETECTED" if v else "missed") for k, v in rcs.items()}))
+    return 0
+
+
+def check_locked(pid, tier="quick", seed=None, extra_env=None):
     specs = load_specs()
     spec = specs[pid]
     t0 = time.time()
